@@ -96,6 +96,42 @@ func runUncommitted(o *hx.Out, rng *hx.Rng, n int) {
 	}
 }
 
+// runWakeup: a subscriber that waits for the next commit must be woken by it. One stream stays open; after every
+// single write its batch must arrive promptly (a batch that only arrives with the NEXT write means the waiter missed
+// the broadcast of its own commit: lost wake-up between the tracker's offset update and the waiter's Wait()).
+func runWakeup(o *hx.Out, rounds int) {
+	shard := int64(2)
+	nd := newNode(shard)
+	nd.start()
+	nd.becomeLeader(1, true, false)
+	defer nd.destroy()
+	arrived := make(chan int64, 1<<16)
+	ctx, cancel := context.WithCancel(context.Background())
+	defer cancel()
+	start := int64(-1)
+	nd.lc.GetNotifications(ctx, &proto.NotificationsRequest{Shard: shard, StartOffsetExclusive: &start}, concurrent.NewStreamOnce(
+		func(b *proto.NotificationBatch) error { arrived <- b.Offset; return nil }, func(error) {}))
+	stalled := 0
+	for i := 0; i < rounds; i++ {
+		_, err := nd.write(&proto.WriteRequest{Puts: []*proto.PutRequest{{Key: "w", Value: []byte("v")}}})
+		hx.Must(err)
+		select {
+		case off := <-arrived:
+			if off != int64(i) {
+				o.Violation("notif:gap-or-duplicate-on-resume", fmt.Sprintf("wake-up scenario: batch %d arrived, expected %d", off, i))
+				return
+			}
+		case <-time.After(500 * time.Millisecond):
+			stalled++
+			o.Violation("notif:committed-batch-not-delivered", fmt.Sprintf("wake-up scenario: the batch of offset %d (committed and stored) did not reach a waiting "+
+				"subscriber within 500 ms; it is delivered only when the next request commits", i))
+			return
+		}
+	}
+	o.Case("wakeup", fmt.Sprintf("%d", rounds), fmt.Sprintf("delivered:%d", rounds), "1")
+	o.Count("wakeup-rounds")
+}
+
 type oneLeader struct{ nd *node }
 
 func (l *oneLeader) getNotifications(ctx context.Context, req *proto.NotificationsRequest, cb concurrent.StreamCallback[*proto.NotificationBatch]) {
